@@ -485,6 +485,8 @@ func runSets(c *ctx, mk func(vals []int, nilSet bool) setAPI) {
 	}
 }
 
+var errCallback = fmt.Errorf("verif: the callback panics")
+
 func checkVisited(c *ctx, l *live, seen []int, complete bool, what string) bool {
 	dup := map[int]bool{}
 	for i, x := range seen {
@@ -797,20 +799,61 @@ func runRing(c *ctx) {
 			c.mix(stop)
 			var got []int
 			calls := 0
+			// What the callback does besides looking: nothing, iterate the
+			// buffer the other way round (a read), or panic at its last call
+			// (the caller recovers; the buffer must be none the worse).
+			extra := 0
+			if !large {
+				extra = tp.Choose(6)
+			}
+			nestedBad := ""
 			f := func(x int) bool {
 				calls++
 				got = append(got, x)
+				switch {
+				case extra == 1:
+					var inner []int
+					if reverse {
+						rb.Range(func(y int) bool { inner = append(inner, y); return true })
+					} else {
+						rb.ReverseRange(func(y int) bool { inner = append(inner, y); return true })
+						slices.Reverse(inner)
+					}
+					if !slices.Equal(inner, want) && nestedBad == "" {
+						nestedBad = fmt.Sprintf("an iteration started from inside a callback yields %v, retained %v", inner, want)
+					}
+				case extra == 2 && calls > stop:
+					panic(errCallback)
+				}
 
 				return calls <= stop
 			}
 			exp := slices.Clone(want)
 			name := "Range"
-			if reverse {
-				rb.ReverseRange(f)
-				slices.Reverse(exp)
-				name = "ReverseRange"
-			} else {
-				rb.Range(f)
+			func() {
+				defer func() {
+					if v := recover(); v != nil && v != any(errCallback) {
+						panic(v)
+					}
+				}()
+				if reverse {
+					slices.Reverse(exp)
+					name = "ReverseRange"
+					rb.ReverseRange(f)
+				} else {
+					rb.Range(f)
+				}
+			}()
+			switch extra {
+			case 1:
+				rc.Stats.Probe("ring-iteration-inside-callback")
+			case 2:
+				rc.Stats.Probe("ring-callback-panics")
+			}
+			if nestedBad != "" {
+				rc.Fail("ring-range", "RingBuffer."+name, nestedBad)
+
+				return
 			}
 			exp = exp[:min(len(exp), stop+1)]
 			c.logf("%s(stop after %d) = %v", name, stop+1, got)
